@@ -252,6 +252,25 @@ func methodNames(t reflect.Type, mapper int) []string {
 	return res
 }
 
+// hasNilEmbedded reports whether struct value v has a field promoted through a nil embedded pointer.
+func hasNilEmbedded(v reflect.Value) bool {
+	for v.IsValid() && (v.Kind() == reflect.Ptr || v.Kind() == reflect.Interface) {
+		if v.IsNil() {
+			return false
+		}
+		v = v.Elem()
+	}
+	if !v.IsValid() || v.Kind() != reflect.Struct {
+		return false
+	}
+	for _, f := range structFields(v.Type(), mapNil) {
+		if _, ok := fieldByIndexSafe(v, f.index); !ok {
+			return true
+		}
+	}
+	return false
+}
+
 // fieldByIndexSafe follows an index path; ok=false if it would go through a nil embedded pointer.
 func fieldByIndexSafe(v reflect.Value, index []int) (reflect.Value, bool) {
 	for i, x := range index {
@@ -414,7 +433,7 @@ func (vw viewer) view(v reflect.Value, d int) string {
 		for _, f := range structFields(t, vw.mapper) {
 			fv, ok := fieldByIndexSafe(v, f.index)
 			if !ok {
-				items = append(items, kv{f.name, "<nil-embedded>"})
+				items = append(items, kv{f.name, "u"}) // promoted through a nil embedded pointer: no such value
 				continue
 			}
 			items = append(items, kv{f.name, vw.view(fv, d+1)})
